@@ -202,7 +202,22 @@ def check_case(case, rec):
       if un[k].shape != shape or str(un[k].dtype) != "float32":
         rec.violation("update-shape", "update for %s has shape %s dtype %s" % (k, un[k].shape, un[k].dtype), wit)
         return
-      ok, ratio = _within(un[k], ex["update"], ex["e_update"])
+      def _score(e):
+        o1, r1 = _within(un[k], e["update"], e["e_update"])
+        extra = 0.0
+        if str(getattr(b["mom_q"], "quantized_dtype", "")).find("int8") >= 0 and np.ndim(e["mom_shampoo"]) >= 1:
+          extra = (np.max(np.abs(e["mom_shampoo"]), axis=0) / 127.0 * 0.52)[None, ...] + np.max(e["e_mom_shampoo"], axis=0)[None, ...] / 2
+        _, r2 = _within(b["mom"], e["mom_shampoo"], e["e_mom_shampoo"], extra)
+        return o1, r1, max(r1, r2)
+      ok, ratio, sc = _score(ex)
+      if sc > 1.0 and used:
+        # stored preconditioners are symmetric only up to rounding / per-column quantisation; an implementation
+        # may contract either index, so the reference accepts the transposed application as well
+        ex_t = R.expected_update(cfg, shape, g[k], params[k], t, [np.asarray(p_).T for p_ in used], ds0, a["mom"], a["diag_mom"])
+        ok_t, ratio_t, sc_t = _score(ex_t)
+        if sc_t <= 1.0:
+          rec.count("matched_transposed_application")
+          ex, ok, ratio = ex_t, ok_t, ratio_t
       rec.maxi("update_err_over_bound", ratio)
       if ex["run"] and not skipped and sizes[k]:
         nontrivial = True
